@@ -177,6 +177,7 @@ type AtomicField struct {
 
 type ContractSet struct {
 	AtomicFields []*AtomicField
+	JSONForms    []*JSONForm
 	GuardedBys   []*GuardedBy
 	Funcs        map[string]*FuncContract
 	Specs        map[string]*SpecFn
@@ -262,7 +263,7 @@ func (fc *FuncContract) Mentions(prop string) bool {
 
 var tagRe = regexp.MustCompile(`^\[([^\]]*)\]\s*`)
 var labelRe = regexp.MustCompile(`^([A-Za-z_][A-Za-z0-9_\-]*):\s+`)
-var headRe = regexp.MustCompile(`^(func|iface|sig|extern|spec|globalinv|atomicfield|guardedby)\s+(.*)$`)
+var headRe = regexp.MustCompile(`^(func|iface|sig|extern|spec|globalinv|atomicfield|guardedby|jsonform)\s+(.*)$`)
 var clauseKw = map[string]bool{"returns": true, "safety": true, "requires": true, "ensures": true, "modifies": true, "writes": true,
 	"loop": true, "let": true, "across": true, "ghostset": true, "ghostadd": true, "onwrite": true, "callpre": true, "argfrom": true, "inline": true, "trusted": true, "trustedframe": true, "pure": true, "calls": true, "logical": true, "opaque": true, "recovered": true, "deferred": true, "canon": true, "logged": true, "noalloc": true}
 
@@ -369,6 +370,15 @@ func (cs *ContractSet) ParseFile(path, pkg string) error {
 					return fmt.Errorf("%s:%d: atomicfield [props] Type.field", path, lineNo)
 				}
 				cs.AtomicFields = append(cs.AtomicFields, &AtomicField{Pkg: pkg, Type: parts[0], Field: parts[1], Props: props, File: path, Line: lineNo})
+				cur = nil
+				continue
+			}
+			if kind == "jsonform" {
+				jf, err := parseJSONForm(pkg, rest, path, lineNo)
+				if err != nil {
+					return err
+				}
+				cs.JSONForms = append(cs.JSONForms, jf)
 				cur = nil
 				continue
 			}
